@@ -268,6 +268,8 @@ def run(tier, seed, procs=16):
         ("refresh", {}, ("video", "static_delivery_cpu_cost", Qv(8, u.cpu_core / (u.GB / u.s)), None)),
         ("refresh", {}, ("video", "ram_buffer_per_user", Qv(100, u.MB), None)),
         ("refresh", {}, ("video", "base_ram_consumption", Qv(3, u.GB), None)),
+        # a base consumption that starts at exactly zero and is then given a value
+        ("refresh", {"video_base_ram": 0}, ("video", "base_ram_consumption", Qv(3, u.GB), None)),
         ("refresh", {}, ("webapp", "technology", lambda: SourceObject("rust-actix-sqlx"), {"technology": "rust-actix-sqlx"})),
         ("refresh", {}, ("webapp_job", "implementation_details", lambda: SourceObject("orm-loop"), None)),
         ("refresh", {}, ("genai_job", "output_token_count", Qv(2500, u.dimensionless), None)),
